@@ -1,5 +1,7 @@
 import Falcon.Driver.Util
 import Falcon.Model.Zq
+import Falcon.Model.Codec
+import Falcon.Spec.Codec
 /- dispatch of one line-protocol op to the model -/
 namespace Falcon.Driver
 open Falcon
@@ -40,6 +42,10 @@ def execOp (chk : Bool) (tok : List String) : String :=
       | "balanced" => renderRes renderInts (seqRes (as.map (Zq.balanced chk)))
       | "value" => renderInts (as.map Zq.value)
       | _ => "bad-op"
+  | ["decompress", n, hx] => renderRes renderOptInts (Codec.decompress chk (parseHex hx) (parseNat n))
+  | ["compress", l, v] => renderRes renderOptHex (Codec.compress (parseInts v) (parseNat l))
+  | ["ref_decompress", n, hx] => renderOptInts (Spec.decompressRef Gen.unaryCapMid (parseHex hx) (parseNat n))
+  | ["ref_compress", l, v] => renderOptHex (Spec.compressRef (parseInts v) (parseNat l))
   | _ => "bad-op"
 
 end Falcon.Driver
